@@ -55,6 +55,9 @@ pub trait Lay: Elem + Fixed + scale_info::TypeInfo {
     // Wrapping<F>
     fn wfb(b: u128) -> Wrapping<Self>;
     fn wtb(w: Wrapping<Self>) -> u128;
+    /// allocation-free byte-view / bits algebra on one bit pattern, for the lean sweeps: every view equals
+    /// the integer's own bytes, every `from_*` inverts it, inherent == `Fixed`-trait, `Wrapping` bits
+    fn views_ok(b: u128) -> bool;
 }
 
 /// The serde side of a layout; only exists when substrate-fixed is built with its `serde` feature.
@@ -65,6 +68,7 @@ pub trait LaySerde: Lay + serde::Serialize + serde::de::DeserializeOwned {
     // serde impls of Wrapping<F> exist per family, not generically
     fn w_serialize<S: serde::Serializer>(self, s: S) -> Result<S::Ok, S::Error>;
     fn w_deserialize<'de, D: serde::Deserializer<'de>>(d: D) -> Result<Self, D::Error>;
+    fn w_deserialize_in_place<'de, D: serde::Deserializer<'de>>(d: D, place: &mut Self) -> Result<(), D::Error>;
 }
 #[cfg(feature = "sf-serde")]
 pub trait LayAll: LaySerde {}
@@ -156,6 +160,38 @@ macro_rules! lay_impl {
             fn wtb(w: Wrapping<Self>) -> u128 {
                 w.to_bits() as $U as u128
             }
+            #[inline]
+            fn views_ok(b: u128) -> bool {
+                let u = b as $U;
+                let i = u as $I;
+                let v = $F::<Fr>::from_bits(i);
+                // model bytes by shifting, independent of any byte-order helper
+                let mut le = [0u8; $n];
+                let mut k = 0;
+                while k < $n {
+                    le[k] = (u >> (8 * k)) as u8;
+                    k += 1;
+                }
+                let mut be = le;
+                be.reverse();
+                let ne = if cfg!(target_endian = "little") { le } else { be };
+                $F::<Fr>::to_bits(v) == i
+                    && $F::<Fr>::to_le_bytes(v) == le
+                    && $F::<Fr>::to_be_bytes(v) == be
+                    && $F::<Fr>::to_ne_bytes(v) == ne
+                    && $F::<Fr>::from_le_bytes(le).to_bits() == i
+                    && $F::<Fr>::from_be_bytes(be).to_bits() == i
+                    && $F::<Fr>::from_ne_bytes(ne).to_bits() == i
+                    && <Self as Fixed>::to_bits(<Self as Fixed>::from_bits(i)) == i
+                    && <Self as Fixed>::to_le_bytes(v) == le
+                    && <Self as Fixed>::to_be_bytes(v) == be
+                    && <Self as Fixed>::to_ne_bytes(v) == ne
+                    && <Self as Fixed>::from_le_bytes(le).to_bits() == i
+                    && <Self as Fixed>::from_be_bytes(be).to_bits() == i
+                    && <Self as Fixed>::from_ne_bytes(ne).to_bits() == i
+                    && Wrapping::<Self>::from_bits(i).to_bits() == i
+                    && Wrapping(v).to_bits() == i
+            }
         }
         #[cfg(feature = "sf-serde")]
         impl<Fr: $LeEq + scale_info::TypeInfo + 'static> LaySerde for $F<Fr> {
@@ -165,6 +201,12 @@ macro_rules! lay_impl {
             }
             fn w_deserialize<'de, D: serde::Deserializer<'de>>(d: D) -> Result<Self, D::Error> {
                 <Wrapping<Self> as serde::Deserialize>::deserialize(d).map(|w| w.0)
+            }
+            fn w_deserialize_in_place<'de, D: serde::Deserializer<'de>>(d: D, place: &mut Self) -> Result<(), D::Error> {
+                let mut w = Wrapping(*place);
+                <Wrapping<Self> as serde::Deserialize>::deserialize_in_place(d, &mut w)?;
+                *place = w.0;
+                Ok(())
             }
         }
     };
@@ -581,26 +623,42 @@ impl Output for ArrOut {
 /// exactly the four little-endian bytes, `decode` of them must return the bits and consume all four,
 /// and (for one pattern in 256) the three-byte prefix must fail. Returns the first offending pattern. Lean on purpose (a few
 /// nanoseconds per pattern); anything it finds is re-executed as an ordinary one-record history.
+/// One bit pattern through the canonical pair and the byte views, allocation-free: `encode_to` writes
+/// exactly the width/8 little-endian bytes, `decode` of them returns the bits and consumes them all, the
+/// byte-view / bits algebra holds (`views_ok`), and — if `short` — the width/8 - 1 byte prefix fails
+/// (building the codec error allocates, so callers ask for that on a fraction of the patterns).
+#[inline]
+pub fn lean_one<T: Lay>(bits: u128, short: bool) -> bool {
+    let wb = T::WB;
+    let x = T::fb(bits);
+    let mut out = ArrOut { buf: [0; 24], n: 0 };
+    x.encode_to(&mut out);
+    let mut le = [0u8; 16];
+    let mut k = 0;
+    while k < wb {
+        le[k] = (bits >> (8 * k)) as u8;
+        k += 1;
+    }
+    let mut ok = out.n == wb && out.buf[..wb] == le[..wb];
+    if ok {
+        let mut s: &[u8] = &le[..wb];
+        ok = matches!(T::decode(&mut s), Ok(y) if y.tb() == bits) && s.is_empty();
+    }
+    ok = ok && T::views_ok(bits);
+    if ok && short {
+        let mut s: &[u8] = &le[..wb - 1];
+        ok = T::decode(&mut s).is_err();
+    }
+    ok
+}
+
 pub fn sweep32<T: Lay>(lo: u32, hi: u32) -> Option<u32> {
     if T::W != 32 {
         return None;
     }
     let mut v = lo;
     loop {
-        let x = T::fb(v as u128);
-        let mut out = ArrOut { buf: [0; 24], n: 0 };
-        x.encode_to(&mut out);
-        let le = v.to_le_bytes();
-        let mut ok = out.n == 4 && out.buf[..4] == le;
-        if ok {
-            let mut s: &[u8] = &le;
-            ok = matches!(T::decode(&mut s), Ok(y) if y.tb() == v as u128) && s.is_empty();
-        }
-        if ok && v & 0xff == 0x5a {
-            // building the codec error allocates; the short-input check is done for one pattern in 256
-            let mut s: &[u8] = &le[..3];
-            ok = T::decode(&mut s).is_err();
-        }
+        let ok = lean_one::<T>(v as u128, v & 0xff == 0x5a);
         if !ok {
             return Some(v);
         }
@@ -751,6 +809,8 @@ pub struct Ops {
     pub sizes: fn(u128) -> (usize, usize, usize),
     pub b1: fn(u128, &[u8]) -> Result<(), String>,
     pub sweep32: fn(u32, u32) -> Option<u32>,
+    /// the lean per-pattern check behind the sweeps (bits, also check the short prefix)
+    pub lean: fn(u128, bool) -> bool,
     /// L1: every declared `EncodeLike` relation between this layout and a primitive integer is honest
     /// (filled in by the generated table, where the layout is a concrete type)
     pub el_check: fn(u128) -> Option<String>,
@@ -790,6 +850,7 @@ pub fn ops<T: LayAll>(name: &'static str, fam: u8, frac: u32) -> Ops {
         sizes: sizes::<T>,
         b1: byte_view_algebra::<T>,
         sweep32: sweep32::<T>,
+        lean: lean_one::<T>,
         el_check: |_| None,
         serde: crate::serde_tok::serde_ops::<T>(),
         meta_check: crate::meta::check_metadata::<T>,
